@@ -20,14 +20,14 @@ from vlib import physgen as pg  # noqa: E402
 ID = "C13"
 LEVEL = "exploration"
 RULE = ("seeded set-ups: order 2-6, n_z from order+1 up to 24, n_theta 4-20, theta-spline degree 1-5 (3 = fast path), "
-        "iota 0 / +-0.8 / r-dependent (caller supplied), r split over 1-4 ranks (per-rank Layout objects, every local "
+        "iota 0 / +-0.8 / +3.7 / -4.3 (field lines winding more than once around theta within the stencil) / r-dependent (caller supplied), r split over 1-4 ranks (per-rank Layout objects, every local "
         "radial index), random potentials; ParallelGradient.parallel_gradient compared on every node (seam rows where the "
         "three index regimes differ included) with the independent formula; identities (linearity, constants->0, "
         "theta-only->0 without twist, z-shift commutation); observed convergence order on a smooth field-aligned mode.  A "
         "class is (order, spline path, iota class, #ranks over r, monitor).")
 ASSUMPTIONS = ["reference theta-spline: dense periodic collocation + Cox-de Boor; FD weights by exact-rational Vandermonde solve",
                "odd orders: any single contiguous stencil containing 0 is accepted (the statement fixes none)"]
-REQUIRED_EVENTS = {"nodes_compared": 1, "identity_checks": 1, "order_checks": 1, "distributed_r_cases": 1}
+REQUIRED_EVENTS = {"nodes_compared": 1, "identity_checks": 1, "order_checks": 1, "distributed_r_cases": 1, "multi_turn_shifts": 1}
 C = 100.0
 KEY_RDEP = "C13:r-dependent-iota/distributed-r/field-line-table-indexed-with-local-radius"
 
@@ -40,7 +40,7 @@ def gen_cases(tier, seed):
         deg = rng.choice([1, 2, 3, 3, 3, 4, 5])
         nr = rng.randint(2, 6)
         cases.append({"kind": "formula", "order": order, "deg": deg, "nth": rng.randint(max(4, deg + 1), 20), "nz": rng.randint(order + 1, 24),
-                      "nr": nr, "P": rng.randint(1, min(4, nr)), "iota": rng.choice(["zero", "pos", "neg", "rdep" if (tier == "thorough" or rng.random() < 0.5) else "pos"]),
+                      "nr": nr, "P": rng.randint(1, min(4, nr)), "iota": rng.choice(["zero", "pos", "neg", "big", "bigneg", "rdep" if (tier == "thorough" or rng.random() < 0.5) else "pos"]),
                       "R0": rng.uniform(1, 10), "seed": rng.randrange(1 << 30), "cost": 50})
     for order in range(2, 7):
         for iota in ("zero", "pos"):
@@ -55,6 +55,10 @@ def _iota_fn(kind):
         return lambda r: np.full_like(r, 0.8, dtype=float)
     if kind == "neg":
         return lambda r: np.full_like(r, -0.8, dtype=float)
+    if kind == "big":          # field lines that wind around theta more than once within the stencil
+        return lambda r: np.full_like(r, 3.7, dtype=float)
+    if kind == "bigneg":
+        return lambda r: np.full_like(r, -4.3, dtype=float)
     return lambda r: 0.8 + 0.3 * np.asarray(r, dtype=float)
 
 
@@ -80,6 +84,8 @@ def run_case(case):
     rng = random.Random(case["seed"])
     order, deg, nth, nz, nr, P, R0 = case["order"], case["deg"], case["nth"], case["nz"], case["nr"], case["P"], case["R0"]
     zMax = rng.choice([2 * pi * R0, rng.uniform(5, 50)])
+    if case["iota"] in ("big", "bigneg"):
+        zMax = 2 * pi * R0 * rng.choice([1, 2])
     c = pg.make_constants(rMin=rng.uniform(0.1, 1.0), rMax=rng.uniform(3, 8), zMin=0.0, zMax=zMax, R0=R0,
                           npts=[nr, nth, nz, 4], splineDegrees=[min(3, nr - 1), deg, min(3, nz - 1), 3], iota_fn=_iota_fn(case["iota"]))
     eta, bs, _ = pg.make_space(spl, c.npts[:3], c.splineDegrees[:3], pg.std_domain(c)[:3], period=(False, True, True))
@@ -89,7 +95,7 @@ def run_case(case):
         return result(SKIP, what="ill conditioned theta space")
     path = "fast" if bs[1].cubic_uniform else "general-p%d" % deg
     base = "order%d/%s/iota-%s/P%d" % (order, path, case["iota"], P)
-    cls, ev = set(), {"nodes_compared": 0, "identity_checks": 0, "order_checks": 0, "distributed_r_cases": 1 if P > 1 else 0}
+    cls, ev = set(), {"nodes_compared": 0, "identity_checks": 0, "order_checks": 0, "distributed_r_cases": 1 if P > 1 else 0, "multi_turn_shifts": 0}
     n = order + 1
     cands = [list(range(-(n // 2), n // 2 + 1))] if n % 2 else [list(range(s, s + n)) for s in range(-(n - 1), 1)]
     chosen = None
@@ -105,6 +111,8 @@ def run_case(case):
             got = np.full((nz, nth), np.nan)
             op.parallel_gradient(phi.copy(), i, got)
             bz = float(pg.bz(eta[0][I], iota_all[I], R0))
+            if abs(iota_all[I]) * (n // 2) * dz / R0 > 2 * pi:
+                ev["multi_turn_shifts"] += 1
             best = None
             for offs in (cands if chosen is None else [chosen]):
                 ref, wsum = ref_gradient(phi, thetaref, eta[1], dz, offs, bz, float(iota_all[I]), R0)
@@ -168,7 +176,7 @@ def _order_case(case, spl, adv, Layout):
         got = np.empty_like(phi)
         op.parallel_gradient(phi, i, got)
         errs.append(float(np.abs(got - exact).max()))
-    ev = {"order_checks": 1, "nodes_compared": 0, "identity_checks": 0, "distributed_r_cases": 0}
+    ev = {"order_checks": 1, "nodes_compared": 0, "identity_checks": 0, "distributed_r_cases": 0, "multi_turn_shifts": 0}
     cls = ["order%d/iota-%s/convergence" % (order, case["iota"])]
     if errs[1] < 1e-11 or errs[0] < 1e-11:
         return result(HELD, cls=cls, events=ev, extra={"errs": errs})
